@@ -329,6 +329,7 @@ func (co *ClipperOffset) doGroupOffset(group *Group) {
 
 	for _, p := range group.inPaths {
 		co.pathOut = Path64{}
+		co.endType = group.endType
 		cnt := len(p)
 		if cnt == 0 {
 			continue
